@@ -70,6 +70,7 @@ type Exec struct {
 	Driver         string
 	SplitLoopExits bool
 	bounds         []*loopBound
+	spawning       bool // applying the contract of a function started with `go` (proof mode)
 	Config         map[string]int64
 	keepRets       bool
 	lastRets       []retRec
